@@ -15,7 +15,7 @@ from .scratch import Scratch, AnchorLost
 
 VERIF = OB.VERIF
 EVID = os.path.join(VERIF, "evidence")
-REPLAYS = os.path.join(VERIF, "replays")
+REPLAYS = os.environ.get("VERIF_REPLAYS") or os.path.join(VERIF, "replays")
 KNOWN = os.path.join(VERIF, "known_findings.json")
 
 
@@ -138,7 +138,7 @@ def main(argv):
         extra = "" if r.status == "proved" else "  <- " + r.reason.splitlines()[0][:200]
         log(" %s %-12s %-6s %-9s %6.1fs  %s%s" % (tag, o.id, o.backend, o.kind, r.time_s, " ".join(o.functions)[:70], extra))
 
-    if not args.only:
+    if not args.only and not os.environ.get("VERIF_NO_EVIDENCE"):
         write_evidence(prop, tier, seed, obs, results, wall, violations, known_hits, undecided)
 
     for o, r, k in known_hits:
